@@ -12,7 +12,18 @@ import nauyaca.__main__ as cli  # noqa: E402
 from nauyaca.protocol.response import GeminiResponse  # noqa: E402
 from typer.testing import CliRunner  # noqa: E402
 
-OWN = {"C03": {"TofuAsRequested"}, "C11": {"TofuAsRequested"}, "C16": {"RedirectsAsRequested", "TofuAsRequested"}}
+OWN = {"C03": {"TofuAsRequested"}, "C11": {"TofuAsRequested"}, "C16": {"RedirectsAsRequested", "TofuAsRequested"},
+       "C19": {"UrlAsGiven"}}
+# spellings per kind: all accepted by the library (checked below with the library itself)
+URLS = {"lower": ["gemini://example.org/x"],
+        "upperScheme": ["GEMINI://example.org/x", "GEMINI://Host.example:1970/x/y?q"],
+        "mixedScheme": ["Gemini://example.org/x", "gEmInI://example.org:1966/"],
+        "upperHost": ["gemini://EXAMPLE.ORG/x", "gemini://Example.Org/X"],
+        "port": ["gemini://example.org:1970/x"], "defaultPort": ["gemini://example.org:1965/x"],
+        "v6": ["gemini://[::1]/x", "gemini://[2001:db8::1]:1970/x"],
+        "noPath": ["gemini://example.org", "gemini://example.org?q"],
+        "query": ["gemini://example.org/x?a=b&c=d", "gemini://example.org/x?gemini://other.ex/"],
+        "reserved": ["gemini://example.org/a;b/c%2Fd?x=%3F", "gemini://example.org/~u/a+b/!$'()*,"]}
 
 
 def plain(x):
@@ -21,7 +32,13 @@ def plain(x):
     return x
 
 
-def run_case(st):
+def denotes(url):
+    from nauyaca.utils.url import parse_url
+    p = parse_url(url)
+    return (p.hostname.lower(), p.port, p.path or "/", p.query)
+
+
+def run_case(st, url="gemini://example.org/x"):
     rec = {}
 
     class Recorder:
@@ -37,7 +54,7 @@ def run_case(st):
         async def get(self, url, **kw):
             rec["get"] = dict(kw, url=url)
             return GeminiResponse(status=20, meta="text/gemini", body="ok\n", url=url)
-    args = ["get", "gemini://example.org/x"]
+    args = ["get", url]
     if st["trustFlag"] != "default":
         args.append(st["trustFlag"])
     if st["verifyFlag"] != "default":
@@ -57,7 +74,11 @@ def run_case(st):
     if "client" not in rec or "get" not in rec:
         return {"k": "failed", "_exit": r.exit_code, "_out": (r.output or "")[-200:]}, args
     c, g = rec["client"], rec["get"]
-    return {"k": "called", "tofu": bool(c.get("trust_on_first_use", True)), "verify": bool(c.get("verify_ssl", False)),
+    try:
+        same = denotes(g["url"]) == denotes(url)
+    except Exception:  # noqa: BLE001
+        same = False
+    return {"k": "called", "url": "same" if same else "other:%s" % g["url"], "tofu": bool(c.get("trust_on_first_use", True)), "verify": bool(c.get("verify_ssl", False)),
             "max": str(c.get("max_redirects", 5)), "follow": bool(g.get("follow_redirects", True)), "timeout": str(float(c.get("timeout", 30.0)))}, args
 
 
@@ -69,34 +90,38 @@ def main(pid, rep=None, finish=True):
         rep.tlc("ClientCli(design)", r)
         if not r.ok:
             raise tlc.TLCError("design variant of ClientCli violates %s" % r.violated)
-        dev = tlc.expect_caught("ClientCli", "MC_ClientCli.cfg", {"DevVerifyDisablesTofu": ["TofuAsRequested"]}, timeout=300)
-        if dev[0][1] is None:
-            raise tlc.TLCError("self-test: DevVerifyDisablesTofu not caught")
+        dev = tlc.expect_caught("ClientCli", "MC_ClientCli.cfg", {"DevVerifyDisablesTofu": ["TofuAsRequested"], "DevSchemePrefixed": ["UrlAsGiven"]}, timeout=300)
+        for d_, c_, _v in dev:
+            if c_ is None:
+                raise tlc.TLCError("self-test: %s not caught" % d_)
         n = 0
         for st in states:
             st = plain(st)
             if st["out"]["k"] == "pending":
                 continue
-            got, args = run_case(st)
-            n += 1
-            want = st["out"]
-            bad = set()
-            if got["k"] != "called":
-                bad = {"TofuAsRequested", "RedirectsAsRequested"}
-            else:
-                if got["tofu"] != want["tofu"]:
-                    bad.add("TofuAsRequested")
-                if got["max"] != want["max"] or got["follow"] != want["follow"]:
-                    bad.add("RedirectsAsRequested")
-                if got["verify"] != want["verify"] or float(got["timeout"]) != float(want["timeout"]):
-                    bad.add("VerifyAsRequested")
-            if bad:
-                mine = sorted(bad & own)
-                desc = "`nauyaca %s`: the command constructs/asks %s, specification %s" % (" ".join(args), got, want)
-                if mine:
-                    rep.violation({"formula": mine[0], "module": "ClientCli"}, "%s falsified: %s" % (mine, desc), None)
+            for url in URLS[st["urlKind"]]:
+                got, args = run_case(st, url)
+                n += 1
+                want = st["out"]
+                bad = set()
+                if got["k"] != "called":
+                    bad = {"TofuAsRequested", "RedirectsAsRequested", "UrlAsGiven"}
                 else:
-                    rep.drifted("nauyaca get departs from ClientCli.tla (%s): %s" % (sorted(bad), desc))
+                    if got["url"] != want["url"]:
+                        bad.add("UrlAsGiven")
+                    if got["tofu"] != want["tofu"]:
+                        bad.add("TofuAsRequested")
+                    if got["max"] != want["max"] or got["follow"] != want["follow"]:
+                        bad.add("RedirectsAsRequested")
+                    if got["verify"] != want["verify"] or float(got["timeout"]) != float(want["timeout"]):
+                        bad.add("VerifyAsRequested")
+                if bad:
+                    mine = sorted(bad & own)
+                    desc = "`nauyaca %s`: the command constructs/asks %s, specification %s" % (" ".join(args), got, want)
+                    if mine:
+                        rep.violation({"formula": mine[0], "module": "ClientCli"}, "%s falsified: %s" % (mine, desc), None)
+                    else:
+                        rep.drifted("nauyaca get departs from ClientCli.tla (%s): %s" % (sorted(bad), desc))
         rep.add("client_cli_cases", n)
         rep.add("traces_validated_against_impl", n)
         if finish:
